@@ -217,7 +217,7 @@ def _unambiguous(ctx, e, v_min_error, rng):
         resid.append(float(np.linalg.norm(others @ coef - mat[:, i_])))
     all_in_span = max(resid) <= 1e-9
     if up is not None:
-        s = np.array(rp[1][0].value, dtype=float).reshape(-1)
+        s = np.real(arr(rp[1][0])).reshape(-1)  # success probabilities, whatever container the library uses (variable, constant, sparse)
         feas = ref.eigmin(gram - np.diag(s)) >= -1e-6 and s.min() >= -1e-6
         ctx.check("O3:unambiguous-feasible", feas and abs(float(np.dot(p, s)) - up) <= TOLV, sig=sig, nt=nt, mech="unambiguous-primal:infeasible-or-not-attaining",
                   detail={"s": s, "value": up, "eigmin": ref.eigmin(gram - np.diag(s))})
